@@ -378,6 +378,16 @@ func (h *history) step() {
 			c.Fail("failed setter changed the receiver", h.det(nil))
 		}
 	}
+	// the receiver of a reading step (Equal, Bytes, BytesMontgomery, ExtendedCoordinates) need
+	// not stay bit-for-bit the same, but it must remain a valid representation of its point
+	if op >= 17 && op <= 20 {
+		psBefore[a] = ""
+		if why, _ := checkPoint(h.pts[a], h.mpts[a]); why != "" {
+			c.Fail("a reading operation left its receiver invalid or changed its value", h.det(map[string]any{"why": why, "slot": a}))
+			h.dead = true
+			return
+		}
+	}
 	// every slot that is not the receiver is bit-for-bit unchanged
 	psAfter, ssAfter := h.snapshot()
 	for i := range psAfter {
